@@ -1224,6 +1224,8 @@ class TaskPool:
                     and itask.state(TASK_STATUS_WAITING)
                     and itask.state_reset(is_runahead=True)
                 ):
+                    # (a runahead-limited task must not stay queued to run)
+                    self.unqueue_task(itask)
                     self.data_store_mgr.delta_task_state(itask)
         return True
 
